@@ -103,7 +103,9 @@ def tree_source(root):
                     src.add(ind, f"async with trio.open_nursery() as n{i}:")
                     src.add(ind + 1, f"W.other({tid}, {j}, {i}, n{i})")
                     for k in c["kids"]:
-                        src.add(ind + 1, f"n{i}.start_soon(t{k['_id']}_f0, W)")
+                        # one task name for all: Trio then names the worker threads of sibling
+                        # to_thread.run_sync(same_fn) calls with EQUAL (but distinct) strings
+                        src.add(ind + 1, f"n{i}.start_soon(t{k['_id']}_f0, W, name='t')")
                 elif c["t"] == "cs":
                     src.add(ind, f"with W.other({tid}, {j}, {i}, trio.CancelScope()):")
                     src.add(ind + 1, "x = 3")
@@ -119,6 +121,8 @@ def tree_source(root):
             elif task["block"] == "body":
                 if task["how"] == "sleep":
                     src.add(ind, "await trio.sleep_forever()")
+                elif task["how"] == "thread":
+                    src.add(ind, f"await trio.to_thread.run_sync(W.tpark, {tid})")
                 else:
                     src.add(ind, "await W.gate.wait()")
             else:
@@ -134,7 +138,47 @@ def tree_source(root):
     return src.text()
 
 
+SHARED_SRC = """
+async def aseg(W, k):
+    W.seg_enter(k)
+    h = W.hop(k)
+    if h == "T":
+        await trio.to_thread.run_sync(sseg, W, k + 1)
+    elif h == "park":
+        W.ready.set()
+        await W.gate.wait()
+    elif h == "inside":
+        await trio.testing.wait_all_tasks_blocked()
+        W.observe()
+        W.ready.set()
+    elif h == "limiter":
+        W.ready.set()
+        await trio.to_thread.run_sync(W.never, limiter=W.full_limiter)
+
+def sseg(W, k):
+    W.thr_enter(k)
+    h = W.hop(k)
+    if h == "H":
+        trio.from_thread.run(aseg, W, k + 1)
+    elif h == "S":
+        trio.from_thread.run(aseg, W, k + 1, trio_token=W.token)
+    else:
+        W.token.run_sync_soon(W.ready.set)
+        W.tlock.acquire()
+        W.tlock.release()
+
+async def seg0_a(W):
+    await aseg(W, 0)
+
+def seg0_s(W):
+    sseg(W, 0)
+"""
+
+
 def chain_source(desc):
+    if desc.get("shared"):
+        # ONE sync and ONE async function at every level: all worker threads get equal names
+        return SHARED_SRC
     hops = desc["hops"]
     nseg = len(hops) + 1
     src = Src()
@@ -274,6 +318,16 @@ class World:
     def never(self):
         return None
 
+    def tpark(self, tid):
+        """body of a tree task parked in to_thread.run_sync: one function for all tasks"""
+        self.seg_thread[("t", tid)] = (threading.current_thread(), sys._getframe(0))
+        self.tlock.acquire()
+        self.tlock.release()
+
+    def hop(self, k):
+        hops = self.desc["hops"]
+        return hops[k] if k < len(hops) else self.desc["end"]
+
     def seg_enter(self, k):
         fr = sys._getframe(1)
         self.codes[fr.f_code] = (("s", k), 0)
@@ -288,6 +342,17 @@ class World:
         self.seg_thread[k] = (threading.current_thread(), sys._getframe(1))
 
     # --- ground truth
+    def seg_of_call(self, frame, fn_local):
+        """which generated segment / parked tree task a to_thread / from_thread call starts:
+        by the call's own arguments (shared functions) or by the function's identity"""
+        args = frame.f_locals.get("args") or ()
+        fn = frame.f_locals.get(fn_local)
+        if getattr(fn, "__func__", None) is World.tpark and len(args) == 1:
+            return ("t", args[0])
+        if len(args) >= 2 and isinstance(args[1], int):
+            return args[1]
+        return self.seg_of_fn(fn)
+
     def seg_of_fn(self, fn):
         if self.ns is None or fn is None:
             return None
@@ -391,7 +456,7 @@ class World:
             elif where in HIDDEN:
                 kind = ["hidden"]
             elif where == ("trio/_threads.py", "to_thread_run_sync"):
-                k = self.seg_of_fn(frame.f_locals.get("sync_fn"))
+                k = self.seg_of_call(frame, "sync_fn")
                 kind = ["to_nf"]
                 if k is not None and k in self.seg_thread:
                     th, entry = self.seg_thread[k]
@@ -402,7 +467,7 @@ class World:
                 if frame.f_locals.get("trio_token") is None:
                     kind = ["from_host"]
                 else:
-                    k = self.seg_of_fn(frame.f_locals.get("afn"))
+                    k = self.seg_of_call(frame, "afn")
                     kind = ["plain"]      # unknown serving task: cannot happen for generated programs
                     if k is not None and k in self.seg_task:
                         t, running = gt_task(self.seg_task[k])
@@ -620,6 +685,15 @@ HIDDEN = {
 }
 
 
+def count_thread_parked(task):
+    n = int(task["block"] == "body" and task["how"] == "thread")
+    for fr in task["frames"]:
+        for c in fr["ctxs"]:
+            for k in c.get("kids", []):
+                n += count_thread_parked(k)
+    return n
+
+
 # ------------------------------------------------------------------------------- running a case
 _counter = [0]
 
@@ -639,6 +713,7 @@ def run(desc):
     ns = {"trio": trio}
     exec(compile(src, f"<c14-{_counter[0]}>", "exec"), ns)
     holder = {}
+    import trio.testing  # noqa: F401  (used by the shared chain source)
 
     async def main():
         W = World(desc)
@@ -662,6 +737,12 @@ def run(desc):
                     if desc["kind"] == "tree":
                         sup.start_soon(ns["t0_f0"], W)
                         await trio.testing.wait_all_tasks_blocked()
+                        want = count_thread_parked(desc["root"])
+                        while sum(1 for k in W.seg_thread if isinstance(k, tuple)) < want:
+                            await trio.sleep(0.001)
+                        if want:
+                            await trio.testing.wait_all_tasks_blocked()
+                            await trio.sleep(0.002)
                         W.start_obj = W.tasks[0]
                         W.observe()
                         release()
@@ -671,10 +752,11 @@ def run(desc):
                         if desc["start"] == "task":
                             async def starter():
                                 W.start_obj = trio.lowlevel.current_task()
-                                await ns["seg0"](W)
+                                await ns["seg0_a" if desc.get("shared") else "seg0"](W)
                             sup.start_soon(starter)
                         else:
-                            foreign = threading.Thread(target=ns["seg0"], args=(W,), daemon=True)
+                            foreign = threading.Thread(target=ns["seg0_s" if desc.get("shared") else "seg0"],
+                                                       args=(W,), daemon=True)
                             W.start_obj = foreign
                             foreign.start()
                         await W.ready.wait()
